@@ -93,6 +93,8 @@ type ChanObj struct {
 	Cap int
 	Buf []Value
 	T   types.Type
+	// Closed: close(ch) was executed; receives drain Buf and then yield (zero, false)
+	Closed bool
 }
 
 // ---------------------------------------------------------------------------
